@@ -178,7 +178,21 @@ func init() {
 			o.Check(e.Arg(c, 0) == "recv" && e.Arg(c, 1) == arg, "user-arg|"+name, name+" must key by the labels of the alert at hand", c)
 			kx := e.X(f, c.(*ssa.Call))
 			for _, ic := range e.Calls(f, "~\\(\\*am/inhibit\\.index\\)\\.(Get|Set|Delete)") {
-				o.Check(e.Arg(ic, 1) == kx, "index-key|"+name, "the index is accessed with "+e.Arg(ic, 1)+" instead of the equal-labels key", ic)
+				ok := e.Arg(ic, 1) == kx
+				// the keys collected in a list first: every element of the list is such a key
+				if u, isU := ic.Common().Args[1].(*ssa.UnOp); !ok && isU {
+					if ia, isIA := u.X.(*ssa.IndexAddr); isIA {
+						if _, parts := e.AppendParts(ia.X); len(parts) > 0 {
+							ok = true
+							for _, p := range parts {
+								if p.Spread || e.X(f, p.V) != kx {
+									ok = false
+								}
+							}
+						}
+					}
+				}
+				o.Check(ok, "index-key|"+name, "the index is accessed with "+clip(e.Arg(ic, 1))+" instead of the equal-labels key", ic)
 			}
 		}
 		// index values: the indexed value is the source alert's fingerprint
